@@ -7,8 +7,8 @@
    not yet covered by a theorem are decided by the implementation <-> specification <->
    hardware differential run only (listed as unproved_forms in the evidence). *)
 From Coq Require Import ZArith Bool List Lia.
-From AxV Require Import Bits Outcome Codes Iced State Rt Mem Trace Exec ExecP FrameTac FrameP RegFile RegsP ByteStore ISA CodeSem IsaP OperandP FlagsP RmP AluP AluRmP AluMemP Alu32P.
-From AxG Require Import Flags Regs Operand Helpers Dispatch Frame I_add I_and I_sub I_cmp I_xor.
+From AxV Require Import Bits Outcome Codes Iced State Rt Mem Trace Exec ExecP FrameTac FrameP RegFile RegsP ByteStore ISA CodeSem IsaP OperandP FlagsP RmP AluP AluRmP AluMemP Alu32P AluImmP AluImm32P TestP FlagsUnP UnaryP Unary32P AdcP.
+From AxG Require Import Flags Regs Operand Helpers Dispatch Frame I_add I_and I_sub I_cmp I_xor I_test I_inc I_dec I_neg I_not I_adc.
 Local Open Scope Z_scope.
 
 (* The flag helper of the emulator (state/flags.rs set_flags!, one instance per operand width,
@@ -187,6 +187,157 @@ Proof.
   - exact (and_rm32_r32_refines c i s Hwf HI Hrf Hn Hs0 K1 H1 Ec).
 Qed.
 
+(* ---- immediate forms: r/m64, imm8 and r/m64, imm32 (sign-extended by the decoder), register or
+   memory destination, and the RAX, imm32 short forms - twelve forms ---- *)
+Theorem C02_alu_rm64_imm : forall c i s,
+  wf_regs s -> Inv (mem s) -> 0 <= rflags s < 2 ^ 63 -> i_op_count i = 2 -> rm64_shape i 0 -> imm64_shape i ->
+  (i_code i = C_Add_rm64_imm8 -> rmwi_refines i s ADD (instr_add_rm64_imm8 c i s)) /\
+  rmwi_refines i s ADD (instr_add_rm64_imm32 c i s) /\
+  (i_code i = C_Add_RAX_imm32 -> rmwi_refines i s ADD (instr_add_rax_imm32 c i s)) /\
+  (i_code i = C_Sub_rm64_imm8 -> rmwi_refines i s SUB (instr_sub_rm64_imm8 c i s)) /\
+  rmwi_refines i s SUB (instr_sub_rm64_imm32 c i s) /\
+  (i_code i = C_Sub_RAX_imm32 -> rmwi_refines i s SUB (instr_sub_rax_imm32 c i s)) /\
+  (i_code i = C_Cmp_rm64_imm8 -> rmwi_refines i s CMP (instr_cmp_rm64_imm8 c i s)) /\
+  rmwi_refines i s CMP (instr_cmp_rm64_imm32 c i s) /\
+  (i_code i = C_Cmp_RAX_imm32 -> rmwi_refines i s CMP (instr_cmp_rax_imm32 c i s)) /\
+  (i_code i = C_And_rm64_imm8 -> rmwi_refines i s AND (instr_and_rm64_imm8 c i s)) /\
+  rmwi_refines i s AND (instr_and_rm64_imm32 c i s) /\
+  (i_code i = C_And_RAX_imm32 -> rmwi_refines i s AND (instr_and_rax_imm32 c i s)).
+Proof.
+  intros c i s Hwf HI Hrf Hn Hs0 Him.
+  repeat match goal with |- _ /\ _ => split end; try intros Ec.
+  - exact (add_rm64_imm8_refines c i s Hwf HI Hrf Hn Hs0 Him Ec).
+  - exact (add_rm64_imm32_refines c i s Hwf HI Hrf Hn Hs0 Him).
+  - exact (add_rax_imm32_refines c i s Hwf HI Hrf Hn Hs0 Him Ec).
+  - exact (sub_rm64_imm8_refines c i s Hwf HI Hrf Hn Hs0 Him Ec).
+  - exact (sub_rm64_imm32_refines c i s Hwf HI Hrf Hn Hs0 Him).
+  - exact (sub_rax_imm32_refines c i s Hwf HI Hrf Hn Hs0 Him Ec).
+  - exact (cmp_rm64_imm8_refines c i s Hwf HI Hrf Hn Hs0 Him Ec).
+  - exact (cmp_rm64_imm32_refines c i s Hwf HI Hrf Hn Hs0 Him).
+  - exact (cmp_rax_imm32_refines c i s Hwf HI Hrf Hn Hs0 Him Ec).
+  - exact (and_rm64_imm8_refines c i s Hwf HI Hrf Hn Hs0 Him Ec).
+  - exact (and_rm64_imm32_refines c i s Hwf HI Hrf Hn Hs0 Him).
+  - exact (and_rax_imm32_refines c i s Hwf HI Hrf Hn Hs0 Him Ec).
+Qed.
+
+(* the same twelve at 32 bits (r/m32, imm8; r/m32, imm32; EAX, imm32) *)
+Theorem C02_alu_rm32_imm : forall c i s,
+  wf_regs s -> Inv (mem s) -> 0 <= rflags s < 2 ^ 63 -> i_op_count i = 2 -> rm32_shape i 0 -> imm32_shape i ->
+  (i_code i = C_Add_rm32_imm8 -> rmw32_refines i s ADD (instr_add_rm32_imm8 c i s)) /\
+  rmw32_refines i s ADD (instr_add_rm32_imm32 c i s) /\
+  (i_code i = C_Add_EAX_imm32 -> rmw32_refines i s ADD (instr_add_eax_imm32 c i s)) /\
+  (i_code i = C_Sub_rm32_imm8 -> rmw32_refines i s SUB (instr_sub_rm32_imm8 c i s)) /\
+  rmw32_refines i s SUB (instr_sub_rm32_imm32 c i s) /\
+  (i_code i = C_Sub_EAX_imm32 -> rmw32_refines i s SUB (instr_sub_eax_imm32 c i s)) /\
+  (i_code i = C_Cmp_rm32_imm8 -> rmw32_refines i s CMP (instr_cmp_rm32_imm8 c i s)) /\
+  rmw32_refines i s CMP (instr_cmp_rm32_imm32 c i s) /\
+  (i_code i = C_Cmp_EAX_imm32 -> rmw32_refines i s CMP (instr_cmp_eax_imm32 c i s)) /\
+  (i_code i = C_And_rm32_imm8 -> rmw32_refines i s AND (instr_and_rm32_imm8 c i s)) /\
+  rmw32_refines i s AND (instr_and_rm32_imm32 c i s) /\
+  (i_code i = C_And_EAX_imm32 -> rmw32_refines i s AND (instr_and_eax_imm32 c i s)).
+Proof.
+  intros c i s Hwf HI Hrf Hn Hs0 Him.
+  repeat match goal with |- _ /\ _ => split end; try intros Ec.
+  - exact (add_rm32_imm8_refines c i s Hwf HI Hrf Hn Hs0 Him Ec).
+  - exact (add_rm32_imm32_refines c i s Hwf HI Hrf Hn Hs0 Him).
+  - exact (add_eax_imm32_refines c i s Hwf HI Hrf Hn Hs0 Him Ec).
+  - exact (sub_rm32_imm8_refines c i s Hwf HI Hrf Hn Hs0 Him Ec).
+  - exact (sub_rm32_imm32_refines c i s Hwf HI Hrf Hn Hs0 Him).
+  - exact (sub_eax_imm32_refines c i s Hwf HI Hrf Hn Hs0 Him Ec).
+  - exact (cmp_rm32_imm8_refines c i s Hwf HI Hrf Hn Hs0 Him Ec).
+  - exact (cmp_rm32_imm32_refines c i s Hwf HI Hrf Hn Hs0 Him).
+  - exact (cmp_eax_imm32_refines c i s Hwf HI Hrf Hn Hs0 Him Ec).
+  - exact (and_rm32_imm8_refines c i s Hwf HI Hrf Hn Hs0 Him Ec).
+  - exact (and_rm32_imm32_refines c i s Hwf HI Hrf Hn Hs0 Him).
+  - exact (and_eax_imm32_refines c i s Hwf HI Hrf Hn Hs0 Him Ec).
+Qed.
+
+(* ADC (64 bit): the carry-in takes part in the sum, in the carry-out and in the overflow - for
+   r64 <- r/m64 and for r/m64 <- r64 with register or memory destination *)
+Theorem C02_adc64_carry_chain : forall d sv (cin : bool),
+  0 <= d < 2 ^ 64 -> 0 <= sv < 2 ^ 64 ->
+  (let v_result := wadd U128 (wadd U128 (cast U64 U128 d) (cast U64 U128 sv)) (of_bool cin) in
+   (cast U128 U64 v_result,
+    Z.lor (if negb (Z.land v_result 9223372036854775808 =? Z.land (cast U64 U128 d) 9223372036854775808) &&
+              negb (Z.land v_result 9223372036854775808 =? Z.land (cast U64 U128 sv) 9223372036854775808)
+           then FLAG_OF else 0)
+          (if negb (Z.land v_result 18446744073709551616 =? 0) then FLAG_CF else 0)))
+  = (let cz := if cin then 1 else 0 in
+     ((d + sv + cz) mod 2 ^ 64,
+      Z.lor (b2f (negb (fits_signed 64 (sgn 64 d + sgn 64 sv + cz))) FLAG_OF) (b2f (2 ^ 64 <=? d + sv + cz) FLAG_CF))).
+Proof. exact adc64_closure. Qed.
+
+Theorem C02_adc_64 : forall c i s,
+  wf_regs s -> Inv (mem s) -> 0 <= rflags s < 2 ^ 64 -> i_op_count i = 2 ->
+  (i_op_kind i 0 = OK_Register -> is_gpr64 (i_op_register i 0) = true -> rm64_shape i 1 ->
+   i_code i = C_Adc_r64_rm64 -> adc_refines i s (instr_adc_r64_rm64 c i s)) /\
+  (i_op_kind i 0 = OK_Register -> i_op_kind i 1 = OK_Register ->
+   is_gpr64 (i_op_register i 0) = true -> is_gpr64 (i_op_register i 1) = true ->
+   i_code i = C_Adc_rm64_r64 -> adc_refines i s (instr_adc_rm64_r64 c i s)) /\
+  (i_op_kind i 0 = OK_Memory -> wf_mem_instr i -> i_op_kind i 1 = OK_Register -> is_gpr64 (i_op_register i 1) = true ->
+   i_code i = C_Adc_rm64_r64 -> adc_refines i s (instr_adc_rm64_r64 c i s)).
+Proof.
+  intros c i s Hwf HI Hrf Hn. repeat split.
+  - exact (adc_r64_rm64_refines c i s Hwf HI Hrf Hn).
+  - exact (adc_rm64_r64_reg_refines c i s Hwf Hrf Hn).
+  - exact (adc_m64_r64_refines c i s Hwf HI Hrf Hn).
+Qed.
+
+(* TEST r/m, r (64 and 32 bits): the flags of the AND, nothing written *)
+Theorem C02_test_rm64_r64 : forall c i s,
+  wf_regs s -> Inv (mem s) -> 0 <= rflags s < 2 ^ 64 -> i_op_count i = 2 -> rm64_shape i 0 ->
+  i_op_kind i 1 = OK_Register -> is_gpr64 (i_op_register i 1) = true -> i_code i = C_Test_rm64_r64 ->
+  match isa_exec (SAlu TEST 64) i s with
+  | IDone s' u => instr_test_rm64_r64 c i s = (Ok tt, s') /\ u = 0
+  | IFault FMem => exists e, instr_test_rm64_r64 c i s = (Err e, s)
+  | IFault _ => False
+  end.
+Proof. exact test_rm64_r64_refines. Qed.
+Theorem C02_test_rm32_r32 : forall c i s,
+  wf_regs s -> Inv (mem s) -> 0 <= rflags s < 2 ^ 64 -> i_op_count i = 2 -> rm32_shape i 0 ->
+  i_op_kind i 1 = OK_Register -> is_gpr32 (i_op_register i 1) = true -> i_code i = C_Test_rm32_r32 ->
+  match isa_exec (SAlu TEST 32) i s with
+  | IDone s' u => instr_test_rm32_r32 c i s = (Ok tt, s') /\ u = 0
+  | IFault FMem => exists e, instr_test_rm32_r32 c i s = (Err e, s)
+  | IFault _ => False
+  end.
+Proof. exact test_rm32_r32_refines. Qed.
+
+(* the flag update of INC / DEC: OF, SF, ZF, PF replaced, CF and every other bit kept *)
+Theorem C02_set_flags_incdec : forall c ofb r s, 0 <= rflags s < 2 ^ 64 ->
+  set_flags_u64 c (inc_fs ofb) 2048 r s = (Ok tt, with_flags s INCF (b2f ofb OF + szp 64 r)) /\
+  set_flags_u32 c (inc_fs ofb) 2048 r s = (Ok tt, with_flags s INCF (b2f ofb OF + szp 32 r)).
+Proof. intros c ofb r s H. split; [apply set_flags_u64_incdec|apply set_flags_u32_incdec]; exact H. Qed.
+
+(* INC, DEC, NEG, NOT r/m64 (register or memory operand) *)
+Theorem C02_unary_rm64 : forall c i s,
+  wf_regs s -> Inv (mem s) -> 0 <= rflags s < 2 ^ 64 -> i_op_count i = 1 -> rm64_shape i 0 ->
+  (i_code i = C_Inc_rm64 -> un_refines i s INC (instr_inc_rm64 c i s)) /\
+  (i_code i = C_Dec_rm64 -> un_refines i s DEC (instr_dec_rm64 c i s)) /\
+  (i_code i = C_Neg_rm64 -> un_refines i s NEG (instr_neg_rm64 c i s)) /\
+  (i_code i = C_Not_rm64 -> un_refines i s NOT (instr_not_rm64 c i s)).
+Proof.
+  intros c i s Hwf HI Hrf Hn Hs0. repeat split; intros Ec.
+  - exact (inc_rm64_refines c i s Hwf HI Hrf Hn Hs0 Ec).
+  - exact (dec_rm64_refines c i s Hwf HI Hrf Hn Hs0 Ec).
+  - exact (neg_rm64_refines c i s Hwf HI Hrf Hn Hs0 Ec).
+  - exact (not_rm64_refines c i s Hwf HI Hrf Hn Hs0 Ec).
+Qed.
+
+Theorem C02_unary_rm32 : forall c i s,
+  wf_regs s -> Inv (mem s) -> 0 <= rflags s < 2 ^ 64 -> i_op_count i = 1 -> rm32_shape i 0 ->
+  (i_code i = C_Inc_rm32 -> un32_refines i s INC (instr_inc_rm32 c i s)) /\
+  (i_code i = C_Dec_rm32 -> un32_refines i s DEC (instr_dec_rm32 c i s)) /\
+  (i_code i = C_Neg_rm32 -> un32_refines i s NEG (instr_neg_rm32 c i s)) /\
+  (i_code i = C_Not_rm32 -> un32_refines i s NOT (instr_not_rm32 c i s)).
+Proof.
+  intros c i s Hwf HI Hrf Hn Hs0. repeat split; intros Ec.
+  - exact (inc_rm32_refines c i s Hwf HI Hrf Hn Hs0 Ec).
+  - exact (dec_rm32_refines c i s Hwf HI Hrf Hn Hs0 Ec).
+  - exact (neg_rm32_refines c i s Hwf HI Hrf Hn Hs0 Ec).
+  - exact (not_rm32_refines c i s Hwf HI Hrf Hn Hs0 Ec).
+Qed.
+
 Print Assumptions cond_matches_sdm.
 Print Assumptions C02_set_flags_64.
 Print Assumptions C02_set_flags_8.
@@ -201,3 +352,10 @@ Print Assumptions C02_xor_r64_rm64.
 Print Assumptions C02_alu_m64_r64.
 Print Assumptions C02_alu_r32_rm32.
 Print Assumptions C02_alu_rm32_r32.
+Print Assumptions C02_alu_rm64_imm.
+Print Assumptions C02_test_rm64_r64.
+Print Assumptions C02_test_rm32_r32.
+Print Assumptions C02_unary_rm64.
+Print Assumptions C02_alu_rm32_imm.
+Print Assumptions C02_adc_64.
+Print Assumptions C02_unary_rm32.
